@@ -67,10 +67,10 @@ class SimDisk:
             raise SimCrash("process already dead")
         k = self.nops
         self.nops += 1
-        self.oplog.append((k, f.name, op, len(arg) if isinstance(arg, str) else arg, self.tag))
+        self.oplog.append((k, f.key, op, len(arg) if isinstance(arg, str) else arg, self.tag))
         if self.trace is not None:
             self.nops = k
-            self.trace.append((k, f.name, op, arg, self.tag, self.clone()))
+            self.trace.append((k, f.key, op, arg, self.tag, self.clone()))
             self.nops = k + 1
         plan = self.plan
         if plan and plan.get("at") == k:
@@ -120,7 +120,8 @@ class SimFile(io.TextIOBase):
     def __init__(self, disk: SimDisk, name: str, mode: str = "a", durable: str = "") -> None:
         super().__init__()
         self.disk = disk
-        self.name = name
+        self.key = name  # the harness's name of the file on the simulated disk
+        self.name = "/simfs/" + name  # what a real file object reports: the path it was opened from
         self.mode = mode
         self.durable = durable
         self._pending: list[str] = []
